@@ -660,7 +660,9 @@ func Judge(tr *Trace) []Finding {
 			}
 			add("C14", cls, fmt.Sprintf("subscription %d received %v, server sent it %v", i, st.Delivered, st.Sent))
 		}
-		if st.RecvAfterEnd > 0 {
+		// (a subscription whose Subscribe FAILED was never handed to the application: a message the
+		// reader had already looked up for it may still arrive on the orphaned channel)
+		if st.RecvAfterEnd > 0 && st.SubscribeOK {
 			add("C14", "C14/delivery-after-end", fmt.Sprintf("subscription %d received %d message(s) after it ended (%s)", i, st.RecvAfterEnd, st.Ended))
 		}
 		if st.SubscribeOK && st.Ended == "" && st.CompleteSent && tr.InboundLeft == 0 && len(tr.ErrsSeen) == 0 && tr.ReaderPanic == "" && !st.ClosedSeen && tr.ReaderEnd == "done" && !tr.Lost {
